@@ -153,6 +153,13 @@ def time_cases(tier):
             for i, other in enumerate(OTHER_LIMITS if tier != 'quick' else OTHER_LIMITS[:2] + OTHER_LIMITS[-1:]):
                 src = ''.join('let a%d = inc(%d); ' % (j, j) for j in range(k)) + 'let s = sleep(seconds(0.6)); let r = %s;' % after
                 work.append(('after-%d-calls-then-%s|with-limits-%d' % (k, an, i), src, 'Timeout', dict(other, time_ms=300)))
+    # the deadline passes inside a tail-recursive loop (each iteration sleeps): a tail call begins the function again
+    for i, other in enumerate(OTHER_LIMITS if tier != 'quick' else OTHER_LIMITS[:2] + OTHER_LIMITS[-1:]):
+        # (sleep is itself a library function written in the language: the iterations must be slow natively, ~5 ms each)
+        src = 'fn spin(n: int, acc: int)->int{ if(n == 0, acc, spin(n - 1, acc + (3 ** 300000).sign())) } let r = spin(600, 0);'
+        work.append(('deadline-inside-tail-loop|with-limits-%d' % i, src, 'Timeout', dict(other, time_ms=300)))
+        src = 'fn spin(n: int, acc: int)->int{ if(n == 0, acc, 0 + spin(sleep(seconds(0.2), n - 1), acc + 1)) } let r = spin(6, 0);'
+        work.append(('deadline-inside-plain-recursion|with-limits-%d' % i, src, 'Timeout', dict(other, time_ms=300)))
     # control: the same programs with a limit that does not elapse
     for an, after in AFTER_DEADLINE:
         src = 'let a0 = inc(0); let s = sleep(seconds(0.0)); let r = %s;' % after
